@@ -18,6 +18,7 @@ import (
 	"runtime"
 	"sort"
 	"strconv"
+	"strings"
 	"sync"
 	"sync/atomic"
 	"time"
@@ -168,6 +169,13 @@ func put(router http.Handler, url string, body []byte, auth bool) int {
 	return rr.Code
 }
 
+// number of live channel goroutines (channel.run), read from the goroutine dump: one per channel object
+func channelGoroutines() int {
+	buf := make([]byte, 4<<20)
+	n := runtime.Stack(buf, true)
+	return strings.Count(string(buf[:n]), "cmaf-ingest-receiver/app.(*channel).run(")
+}
+
 func runOnce(si, round int, sc Scenario) Outcome {
 	root := ""
 	if st, err := os.Stat("/dev/shm"); err == nil && st.IsDir() {
@@ -191,8 +199,11 @@ func runOnce(si, round int, sc Scenario) Outcome {
 			cfg.Channels = append(cfg.Channels, cc)
 		}
 	}
-	time.Sleep(2 * time.Millisecond)
-	before := runtime.NumGoroutine()
+	// the channel goroutines of the previous run end when their context is cancelled: wait for that
+	for i := 0; i < 2000 && channelGoroutines() > 0; i++ {
+		time.Sleep(time.Millisecond)
+	}
+	before := channelGoroutines()
 	ctx, cancel := context.WithCancel(context.Background())
 	rcv, err := app.VerifNewReceiver(ctx, storage, "/upload", 30, cfg)
 	if err != nil {
@@ -317,7 +328,7 @@ func runOnce(si, round int, sc Scenario) Outcome {
 		}
 	}
 	time.Sleep(2 * time.Millisecond)
-	out.Goroutines = runtime.NumGoroutine() - before
+	out.Goroutines = channelGoroutines() - before
 	out.Channels = rcv.ChannelNames()
 	for _, chn := range sc.Channels {
 		out.Tracks[chn] = rcv.TrackNames(chn)
